@@ -114,6 +114,8 @@ type Path struct {
 	tickers       []*Chan
 	deadlockLabel string
 	shortReads    bool
+	lockModel     bool // sync mutexes block and are scheduling points
+	mutexes       map[*Value]*Chan
 	yieldAtDB     bool // Pebble DB-handle operations are scheduling points
 	sstCuts       bool // sstable.Writer.EstimatedSize returns arbitrary non-decreasing values
 	curFr         *frame
